@@ -175,6 +175,7 @@ class Set(Expression):
 
 
 class Heredoc(Expression):
+    _hash_raw_args = True
     arg_types = {"this": True, "tag": False}
 
 
@@ -381,6 +382,7 @@ class Undrop(Expression):
 
 
 class Command(Expression):
+    _hash_raw_args = True
     arg_types = {"this": True, "expression": False}
 
 
